@@ -14,6 +14,7 @@ from sa.cfg import CFG, node_calls
 
 COM = "miasm/os_dep/common.py"
 ENV = "miasm/os_dep/linux/environment.py"
+WIN = "miasm/os_dep/win_api_x86_32.py"
 LEVEL_TEXT = ("Static rules over the bump allocators: symbolic progress of the cursor update (align-up form needs a size "
               "term >= 1), must-map on every path from cursor read to exit with the same address and size. Decides these "
               "necessary clauses for every request sequence; allocates nothing.")
@@ -85,6 +86,7 @@ def run(ck):
     ck.rule("R2", "an address taken from the heap cursor is mapped (same address, requested size) on every path before exit", floor=5)
     ck.rule("R3", "heap.vm_alloc maps what it returns", floor=1)
     _page_length_rules(ck)
+    _fresh_address_rules(ck)
 
     cm = ck.repo.mod(COM)
     fn = cm.func("heap.next_addr")
@@ -234,3 +236,54 @@ def _page_length_rules(ck):
                 ck.ob("R4", "%s:add_memory_page(%s)" % (q, norm(c.args[0])[:20]), ln[0] in ("exact", "atleast"), m.where(c),
                       "the page is created from `%s`, whose length is at most %s: a file mapping that runs past the end of the file "
                       "leaves the tail of the returned region unmapped" % (norm(c.args[2])[:40], ln[1]))
+
+
+def _fresh_address_rules(ck):
+    """R5: an address a Windows allocation entry point returns to the guest is either taken from the heap cursor (and mapped, R2) or -
+    when the guest supplied it - known to be the BASE of an existing mapping (`addr in vm.get_all_memory()`, whose keys are the mapping
+    bases).  `vm.is_mapped(addr, size)` says only that the bytes exist: an address inside somebody else's live allocation passes it and
+    would be handed out a second time."""
+    from sa.cfg import CFG, node_calls
+    from sa.facts import guard_facts
+    from sa.astutil import Resolver
+    ck.rule("R5", "a guest-supplied address is returned as an allocation only where it is known to be the base of an existing mapping", floor=1)
+    wm = ck.repo.mod(WIN)
+    n = 0
+    for q, fn in sorted(wm.funcs.items()):
+        if "." in q or "Alloc" not in q or not any(isinstance(c, ast.Call) and "heap" in (dotted(c.func) or "") for c in walk_body(fn)):
+            continue
+        rets = [c for c in walk_body(fn) if isinstance(c, ast.Call) and callee_attr(c) in ("func_ret_stdcall", "func_ret_cdecl") and len(c.args) >= 2]
+        if not rets:
+            continue
+        cfg = CFG(fn)
+        facts = guard_facts(cfg)
+        res = Resolver(fn)
+        for r_ in rets:
+            v = r_.args[1]
+            if not isinstance(v, ast.Name):
+                continue
+            for nd in cfg.nodes:
+                a = nd.ast
+                if nd.kind == "stmt" and isinstance(a, ast.Assign) and any(isinstance(t, ast.Name) and t.id == v.id for t in a.targets):
+                    val = a.value
+                    def outside_calls(e):
+                        if isinstance(e, ast.Call):
+                            return []
+                        out_ = [e]
+                        for ch_ in ast.iter_child_nodes(e):
+                            out_.extend(outside_calls(ch_))
+                        return out_
+                    guest = any(isinstance(x, ast.Attribute) and isinstance(x.value, ast.Name) and x.value.id == "args" for x in outside_calls(val))
+                    if not guest:
+                        continue
+                    n += 1
+                    ok = False
+                    for ft in facts.get(nd.id, frozenset()):
+                        if ft[0] == "cmp" and ft[2] == "in" and ft[1] == norm(val):
+                            cont = ast.parse(ft[3], mode="eval").body
+                            if norm(res.expand_node(cont)).endswith(".get_all_memory()"):
+                                ok = True
+                    ck.ob("R5", "%s:returns-guest-address:%s" % (q, norm(val)), ok, wm.where(a),
+                          "`%s` (chosen by the guest) becomes the returned allocation without being known to be the base of an existing mapping: "
+                          "an address inside a live allocation is handed out again" % norm(val))
+    ck.ob("R5", "guest-address-returns-seen", n >= 1, WIN, "no allocation entry point returning a guest-supplied address found (extractor blind)")
